@@ -72,11 +72,12 @@ CHECKS = {
             "DESIGN.md section 3, C01"),
     "C02": ("exploration",
             "offline comparison of a canonical value dump read four ways (named, get_by_tag, cursor, cursor+tag) from "
-            "images produced by an independent python encoder; exact-size heap copies under ASan",
+            "images produced by an independent python encoder; exact-size heap copies under ASan; constexpr collector "
+            "compared with the same value tree",
             "Every reachable value (fields, composite members, arrays, enums, sets, constants, group sizes, entries, data) "
             "of images the python encoder produced is read back through the generated accessors and compared bit-exactly "
             "(NaN payloads included) for both byte orders and several compiler/standard configurations.",
-            "generator domain of DESIGN 2.2 (unsigned level headers, ids/block lengths representable in header members, depth <= 3); the python reference model is the trusted oracle; g++12/clang++14; the constexpr leg of the property is not exercised by this check",
+            "generator domain of DESIGN 2.2 (unsigned level headers, ids/block lengths representable in header members, depth <= 3); the python reference model is the trusted oracle; g++12/clang++14; constant evaluation is exercised by a separate leg (constexpr collector over embedded images, C++20/2b, both compilers) for fields, composite members, enums, sets, sizes and char arrays/data only",
             "DESIGN.md section 3, C02"),
     "C03": ("exploration",
             "decode dumps (random access, cursor, recording visitor) and size_bytes on reference images whose levels "
